@@ -579,6 +579,7 @@ class Mode:
             instruction.bytes = self.bvalues
         instruction.keep = self.keep
         instruction.refs, instruction.rrefs = self.refs
+        data_address = instruction.address
 
         self.process_label(instruction, self.label, removed)
 
@@ -624,7 +625,7 @@ class Mode:
                 address_comments.append((instruction, [], comments))
                 address = self.process_instruction(instruction, label, overwrite, removed)
 
-        address = instruction.address
+        address = data_address
         while self.data:
             address = parse_asm_data_directive(snapshot, address, self.data.pop(0))
 
